@@ -5,6 +5,7 @@ Boundary monitor on Message.from_bytes/from_hex; oracle = reference acceptor
 """
 import decimal
 import fractions
+import random
 from numbers import Integral
 
 from mido import Message
@@ -269,6 +270,94 @@ def positional_time_cases(ctx):
     return n
 
 
+DECODER_SEQS = ([0x90, 0x40, 0x40], [0x90, 0x40], [0x90, 0x40, 0x40, 0x40], [0xC3, 5], [0xC3], [0xE0, 0, 0x40], [0xF0, 0xF7],
+                [0xF0, 1, 2, 0xF7], [0xF0, 1, 2], [0xF1, 5], [0xF2, 1, 2], [0xF2, 1], [0xF6], [0xF8], [0xF8, 0xF8], [0xF4],
+                [0xF7], [0x40], [], [0x90, 0x80, 1], [0x90, 1, 0x90, 1, 1], [1, 0x90, 1, 1], [0xF0, 1, 0xF8, 0xF7],
+                [0xFE], [0xF9], [0xB0, 120, 0], [0xD5, 0x7F])
+
+
+class UserMessage(Message):
+    """What an application does to add behaviour: a plain subclass."""
+    def describe(self):
+        return f'{self.type}@{self.time}'
+
+
+def subclass_decoder_cases(ctx):
+    """from_bytes / from_hex are classmethods: called on FrozenMessage or on a user's subclass, with the time omitted,
+    given by keyword or positionally, they accept and reject exactly the same strings and build the same message."""
+    from mido.frozen import FrozenMessage
+    n = 0
+    for cls in (Message, FrozenMessage, UserMessage):
+        for seq in DECODER_SEQS:
+            acc = midi1.accept(seq)
+            for tform, t in (('omitted', 0), ('keyword', 0), ('keyword', 480), ('keyword', 1.5), ('positional', 7)):
+                for via in ('from_bytes', 'from_hex'):
+                    if via == 'from_hex' and tform == 'positional':
+                        continue
+                    case = {'kind': 'subclass-decoder', 'class': cls.__name__, 'seq': list(seq), 'time': tform, 't': t, 'via': via}
+                    arg = list(seq) if via == 'from_bytes' else ' '.join(f'{b:02X}' for b in seq)
+                    f = getattr(cls, via)
+                    try:
+                        m = f(arg) if tform == 'omitted' else f(arg, time=t) if tform == 'keyword' else f(arg, t)
+                    except ValueError as exc:
+                        ctx.check('rejected => malformed', not acc, f'subclass-decoder:rejected-wellformed:{cls.__name__}', case, str(exc))
+                    except Exception as exc:
+                        ctx.check('exception class', False, f'subclass-decoder:{type(exc).__name__}:{cls.__name__}', case, str(exc))
+                    else:
+                        ctx.check('accepted => wellformed', acc, f'subclass-decoder:accepted-malformed:{cls.__name__}', case, repr(m))
+                        try:
+                            ok = (m.bytes() == list(seq) and m.time == t and type(m.time) is type(t) and isinstance(m, cls)
+                                  and m == Message.from_bytes(list(seq), time=t))
+                        except Exception as exc:
+                            ok = False
+                        ctx.check('bytes()==input', ok, f'subclass-decoder:differs:{cls.__name__}', case, repr(m))
+                    n += 1
+    return n
+
+
+def backend_delivery_cases(ctx):
+    """The RtMidi backend builds a message from each delivery of the driver with from_bytes: a delivery that is not exactly
+    one well-formed message is ignored - whether the port is polled or has a callback - and does not change what later
+    deliveries give.  (Driven through a stand-in for the rtmidi extension module, vmon.fakertmidi.)"""
+    from .. import fakertmidi
+    backend = fakertmidi.install()
+    n = 0
+    rng = random.Random(f'{ctx.seed}:backend')
+    seqs = [list(q) for q in DECODER_SEQS]
+    for mode in ('poll', 'callback', 'callback-set-later'):
+        for rnd in range(6):
+            order = seqs[:]
+            rng.shuffle(order)
+            case = {'kind': 'backend-delivery', 'mode': mode, 'deliveries': order}
+            got = []
+            port = None
+            try:
+                port = backend.Input('fake in', callback=got.append if mode == 'callback' else None)
+                want = []
+                for i, seq in enumerate(order):
+                    port._rt.deliver(seq)
+                    if midi1.accept(seq):
+                        want.append(list(seq))
+                    if mode == 'poll' and rng.random() < 0.4:
+                        got.extend(port.iter_pending())
+                    if mode == 'callback-set-later' and i == len(order) // 2:
+                        port.callback = got.append
+                if mode == 'poll':
+                    got.extend(port.iter_pending())
+                    got.append(port.poll())
+                    want.append(None)
+                gotb = [m.bytes() if m is not None else None for m in got]
+                ctx.check('accepted => wellformed', gotb == want, f'backend-delivery:{mode}', case,
+                          {'got': gotb[:40], 'want': want[:40]})
+            except Exception as exc:
+                ctx.check('exception class', False, f'backend-delivery:{mode}:{type(exc).__name__}', case, str(exc))
+            finally:
+                if port is not None:
+                    port.close()
+            n += 1
+    return n
+
+
 def array_and_long_cases(ctx):
     """Buffer-protocol containers with items wider than a byte, and long sysex payloads with one
     non-integer item (a bulk range check would miss it)."""
@@ -463,7 +552,7 @@ def run(ctx):
         ctx.extra('cases_repeated_after_perturbations', h)
         n += h
     if ctx.shard == 4 % ctx.nshards:
-        h = array_and_long_cases(ctx) + positional_time_cases(ctx)
+        h = array_and_long_cases(ctx) + positional_time_cases(ctx) + subclass_decoder_cases(ctx) + backend_delivery_cases(ctx)
         ctx.nontrivial(None, h)
         ctx.extra('array_and_long_sysex_cases', h)
         n += h
@@ -498,5 +587,9 @@ def replay(ctx, case):
         history_cases(ctx)
     elif case['kind'] in ('hex', 'hex-sep'):
         hex_cases(ctx)
+    elif case['kind'] == 'subclass-decoder':
+        subclass_decoder_cases(ctx)
+    elif case['kind'] == 'backend-delivery':
+        backend_delivery_cases(ctx)
     elif case['kind'] == 'trailing-byte':
         trailing_byte_cases(ctx)
